@@ -208,7 +208,9 @@ def do_get(s: Sys, ri, phase="bfs", req=None):
         f = {**f, "hit": "generated"}
         cns, csans, issuer = cert_names(e)
         want_cn = [cn] if cn is not None and len(cn) < 64 else []
-        ok = cns == want_cn and csans == list(sans) and issuer == setup()["ca"].to_cryptography().subject
+        # "exactly the requested names": the same set of names (the order of SAN entries carries no meaning)
+        same_sans = sorted(repr(x) for x in csans) == sorted(repr(x) for x in sans)
+        ok = cns == want_cn and same_sans and issuer == setup()["ca"].to_cryptography().subject
         s.res.append(("generated_has_exactly_requested_names", ok, f, {"cn": want_cn, "sans": [str(x.value) for x in sans]},
                       {"cn": cns, "sans": [str(x.value) for x in csans]}))
     if prev is not None and prev_cached and prev[1] == s.adds:
